@@ -11,7 +11,7 @@ fn close(a: f64, b: f64) -> bool {
     (a - b).abs() <= 1e-9
 }
 
-//@h {"id":"C19.K.iso6709.dm","props":["C19","C10","C01"],"tier":"quick","kind":"bounded","bound":"2 probe tuples (northern/eastern and southern/western incl. a zero-degree latitude); height and time: all f64 bit patterns","timeout":600,"text":"dm: forward reads (latitude, longitude) in DDDMM.mmm and delivers (longitude, latitude) in radians, inverse the reverse; height and time bit-identical; count = n; inverse after forward returns the encoded values"}
+//@h {"id":"C19.K.iso6709.dm","props":["C19","C10","C01"],"tier":"quick","kind":"bounded","bound":"2 probe tuples (northern/eastern and southern/western incl. a zero-degree latitude); height and time: all f64 bit patterns","timeout":1800,"text":"dm: forward reads (latitude, longitude) in DDDMM.mmm and delivers (longitude, latitude) in radians, inverse the reverse; height and time bit-identical; count = n; inverse after forward returns the encoded values"}
 #[kani::proof]
 #[kani::unwind(6)]
 fn c19_iso6709_dm() {
@@ -30,7 +30,7 @@ fn c19_iso6709_dm() {
     assert!(beq(data[0][2], z) && beq(data[1][3], t), "C10.K.iso6709.frame: height and time bit-identical (inverse)");
 }
 
-//@h {"id":"C19.K.iso6709.dms","props":["C19","C10","C01"],"tier":"quick","kind":"bounded","bound":"2 probe tuples; height and time: all f64 bit patterns","timeout":600,"text":"dms: same contract for DDDMMSS.sss"}
+//@h {"id":"C19.K.iso6709.dms","props":["C19","C10","C01"],"tier":"quick","kind":"bounded","bound":"2 probe tuples; height and time: all f64 bit patterns","timeout":1800,"text":"dms: same contract for DDDMMSS.sss"}
 #[kani::proof]
 #[kani::unwind(6)]
 fn c19_iso6709_dms() {
